@@ -75,14 +75,16 @@ SPEC = dict(
     histogram=histogram,
     rule="operation sequences on a register file of three DenseMatrix<T,C> (T in u8/u32/f32/i64, C in "
          "1,5,7,16,21,32,43): random ops on any register (new/with_capacity with capacity below, equal to and "
-         "above the row count/resize/reserve/fill/IndexMut by row and by MatrixCoordinates/from_rows/from_rows "
+         "above the row count/resize (mostly < 13 rows, 8% up to 40)/reserve/fill/IndexMut by row and by MatrixCoordinates/from_rows/from_rows "
          "with an iterator whose len() is honest, too large or too small/clone/iter_mut; ~4% out-of-range "
          "indices and ragged rows) and between registers (clone_from, dst = src.clone(), mem::swap, "
          "mem::replace), 40% of the cases opened by directed scenarios (clone_from into a shrunk destination "
          "with spare capacity, with_capacity + resizes crossing the capacity, fill/shrink/grow, lying len(), "
          "zero-row / zero-capacity matrices, equal cells through different histories), plus the 248 directed "
          "cases of corpus/C19. After EVERY op, for EVERY register: rows(), stride(), row addresses mod "
-         "alignment and spacing, ravel() length and layout, capacity(), all logical cells, and == / != for all "
+         "alignment and spacing, ravel() length and layout, whether ravel() is uniform (after fill: padding "
+         "written too), capacity(), all logical cells (80% small values, 20% extremes of the element type), "
+         "and == / != for all "
          "9 register pairs; finally per register iter(), iter().rev(), (&m).into_iter(), (&mut m).into_iter(), "
          "a random next()/next_back() pattern continued past exhaustion on iter()/iter_mut()/into_iter with "
          "len() after each call, ==/clone, == against a copy with other history/capacity/padding, == after "
